@@ -32,12 +32,19 @@ class ProxyFixMiddleware:
                 # X-Forwarded-* headers) is trusted instead.
                 value = _get_trusted_value(b"forwarded", headers, self.trusted_hops)
                 for part in value.split(";") if value is not None else []:
-                    if part.startswith("for="):
-                        client = part[4:].strip()
-                    elif part.startswith("host="):
-                        host = part[5:].strip()
-                    elif part.startswith("proto="):
-                        scheme = part[6:].strip()
+                    # Parameter names are case-insensitive, a value is a
+                    # token or a quoted-string (RFC 7239 section 4)
+                    name, _, parameter = part.partition("=")
+                    name = name.strip().lower()
+                    parameter = parameter.strip()
+                    if len(parameter) >= 2 and parameter[0] == parameter[-1] == '"':
+                        parameter = parameter[1:-1].replace('\\"', '"').replace("\\\\", "\\")
+                    if name == "for":
+                        client = parameter
+                    elif name == "host":
+                        host = parameter
+                    elif name == "proto":
+                        scheme = parameter
 
             else:
                 client = _get_trusted_value(b"x-forwarded-for", headers, self.trusted_hops)
